@@ -2,6 +2,7 @@ package eng
 
 import (
 	"fmt"
+	"go/token"
 	"go/types"
 	"sort"
 	"strconv"
@@ -604,4 +605,204 @@ func analyseFoldSanity(as AnalysisSpec, progs []*Program, cs *Contracts, funcs [
 	}
 	ar.Summary = fmt.Sprintf("%d folds", len(names))
 	return ar
+}
+
+func init() {
+	analyses["atomic-global"] = analyseAtomicGlobal
+}
+
+// analyseAtomicGlobal: a package-level counter is touched only as the operand of sync/atomic calls and
+// only in the listed functions, anywhere in the module. args["global"]="lib.nextOpID", list = functions.
+func analyseAtomicGlobal(as AnalysisSpec, progs []*Program, cs *Contracts, funcs []*FuncResult, work string, timeout time.Duration) *AnalysisResult {
+	ar := &AnalysisResult{Name: as.Name}
+	gname := as.Args["global"]
+	allowed := map[string]bool{}
+	for _, f := range as.List {
+		allowed[f] = true
+	}
+	o := &OblResult{Name: "module/atomic-only:" + gname, Kind: "atomic-only", Func: gname, Backend: "ssa-walker", Result: "discharged", Desc: gname + " is accessed only through sync/atomic, only in " + strings.Join(as.List, ", ")}
+	uses := 0
+	for _, p := range progs {
+		for _, fn := range p.All {
+			for _, b := range fn.Blocks {
+				for _, in := range b.Instrs {
+					for _, op := range in.Operands(nil) {
+						g, ok := (*op).(*ssa.Global)
+						if !ok || g.Pkg == nil || PkgShort(g.Pkg.Pkg.Path())+"."+g.Name() != gname {
+							continue
+						}
+						uses++
+						fk := p.FuncKey(fn)
+						call, isCall := in.(*ssa.Call)
+						atomicCall := false
+						if isCall {
+							if sc := call.Call.StaticCallee(); sc != nil && sc.Pkg != nil && sc.Pkg.Pkg.Path() == "sync/atomic" {
+								atomicCall = true
+							}
+						}
+						if !atomicCall {
+							o.Result, o.Why = "failed", "non-atomic access at "+p.Pos(in.Pos())+" in "+fk
+						} else if !allowed[fk] {
+							o.Result, o.Why = "failed", "access outside the listed functions at "+p.Pos(in.Pos())+" in "+fk
+						}
+					}
+				}
+			}
+		}
+	}
+	if uses == 0 {
+		o.Result, o.Why = "failed", "global not found"
+	}
+	ar.Obls = append(ar.Obls, o)
+	ar.Summary = fmt.Sprintf("%d uses of %s", uses, gname)
+	return ar
+}
+
+func init() {
+	analyses["guard-coverage"] = analyseGuardCoverage
+}
+
+// analyseGuardCoverage: every function of the module that takes the address of a guarded field of the
+// given struct is verified in this run, so that its accesses are guarded-access obligations.
+func analyseGuardCoverage(as AnalysisSpec, progs []*Program, cs *Contracts, funcs []*FuncResult, work string, timeout time.Duration) *AnalysisResult {
+	ar := &AnalysisResult{Name: as.Name}
+	sk := as.Args["struct"]
+	guarded := map[string]bool{}
+	for _, g := range cs.Guards {
+		if g.Struct == sk {
+			for _, f := range g.Fields {
+				guarded[f] = true
+			}
+		}
+	}
+	verified := map[string]bool{}
+	for _, f := range funcs {
+		if f.Unsupported == "" {
+			verified[f.Key] = true
+		}
+	}
+	for _, p := range progs {
+		for _, fn := range p.All {
+			touches := ""
+			for _, b := range fn.Blocks {
+				for _, in := range b.Instrs {
+					if fa, ok := in.(*ssa.FieldAddr); ok {
+						st := deref(fa.X.Type())
+						if structKey(st) == sk && guarded[st.Underlying().(*types.Struct).Field(fa.Field).Name()] {
+							touches = st.Underlying().(*types.Struct).Field(fa.Field).Name()
+						}
+					}
+				}
+			}
+			if touches == "" {
+				continue
+			}
+			fk := p.FuncKey(fn)
+			o := &OblResult{Name: fk + "/guard-coverage:" + sk, Kind: "guarded-access", Func: fk, Backend: "ssa-walker", Result: "discharged", Desc: "accessor of guarded field " + sk + "." + touches + " is verified"}
+			if !verified[fk] {
+				o.Result, o.Why = "failed", "function touches guarded field "+touches+" but is not verified"
+			}
+			ar.Obls = append(ar.Obls, o)
+		}
+	}
+	if len(guarded) == 0 {
+		ar.Obls = append(ar.Obls, &OblResult{Name: sk + "/guard-coverage", Kind: "guarded-access", Result: "failed", Why: "no guard declared for " + sk})
+	}
+	ar.Summary = fmt.Sprintf("%d accessor functions of %s", len(ar.Obls), sk)
+	return ar
+}
+
+// checkNoEscape: the contract flag "noescape" promises that no pointer parameter (receiver included)
+// is retained: it is only dereferenced, compared, returned, or passed on to callees that make the same
+// promise. Decided on the SSA of the function body.
+func checkNoEscape(e *Engine) (bool, string) {
+	fn := e.Fn
+	derived := map[ssa.Value]bool{}
+	for _, p := range fn.Params {
+		if isRefLike(p.Type()) {
+			derived[p] = true
+		}
+	}
+	spill := map[*ssa.Alloc]bool{}
+	changed := true
+	for changed {
+		changed = false
+		for _, b := range fn.Blocks {
+			for _, in := range b.Instrs {
+				switch x := in.(type) {
+				case *ssa.Store:
+					if al, ok := x.Addr.(*ssa.Alloc); ok && derived[x.Val] && !spill[al] && !e.allocEscapes(al) {
+						spill[al] = true
+						changed = true
+					}
+				case *ssa.UnOp:
+					if al, ok := x.X.(*ssa.Alloc); ok && x.Op == token.MUL && spill[al] && !derived[x] {
+						derived[x] = true
+						changed = true
+					}
+				case *ssa.MakeInterface:
+					if derived[x.X] && !derived[x] {
+						derived[x] = true
+						changed = true
+					}
+				case *ssa.ChangeInterface:
+					if derived[x.X] && !derived[x] {
+						derived[x] = true
+						changed = true
+					}
+				case *ssa.ChangeType:
+					if derived[x.X] && !derived[x] {
+						derived[x] = true
+						changed = true
+					}
+				}
+			}
+		}
+	}
+	for _, b := range fn.Blocks {
+		for _, in := range b.Instrs {
+			for _, op := range in.Operands(nil) {
+				if *op == nil || !derived[*op] {
+					continue
+				}
+				switch x := in.(type) {
+				case *ssa.Store:
+					if al, ok := x.Addr.(*ssa.Alloc); ok && (spill[al] || !e.allocEscapes(al)) {
+						continue
+					}
+					return false, "parameter stored at " + e.P.Pos(in.Pos())
+				case *ssa.UnOp, *ssa.FieldAddr, *ssa.Return, *ssa.BinOp, *ssa.MakeInterface, *ssa.ChangeInterface, *ssa.ChangeType, *ssa.TypeAssert, *ssa.DebugRef, *ssa.If:
+					continue
+				case *ssa.Call:
+					var key string
+					if x.Call.IsInvoke() {
+						key = ifaceMethodKey(x.Common())
+					} else if sc := x.Call.StaticCallee(); sc != nil {
+						if sc.Pkg != nil && strings.HasPrefix(sc.Pkg.Pkg.Path(), e.P.ModPrefix) {
+							key = e.P.FuncKey(sc)
+						} else {
+							key = calleeKeyExternal(sc)
+						}
+					}
+					if ct := e.C.Funcs[key]; ct != nil {
+						if ct.Flag("noescape") {
+							continue
+						}
+						if tgt, ok := ct.Flags["same_as"]; ok {
+							if tc := e.C.Funcs[tgt]; tc != nil && tc.Flag("noescape") {
+								continue
+							}
+						}
+					}
+					if _, isExt := extStatic[key]; isExt || isPureExternal(key) {
+						continue
+					}
+					return false, "parameter passed to " + key + " (no noescape contract) at " + e.P.Pos(in.Pos())
+				default:
+					return false, fmt.Sprintf("parameter used by %T at %s", in, e.P.Pos(in.Pos()))
+				}
+			}
+		}
+	}
+	return true, ""
 }
